@@ -6,6 +6,7 @@ Import ListNotations.
 From Emu.Common Require Import Bytes Str.
 From Emu.GCS Require Import Model CondsSpec CondsProofs HandlerProofs.
 From Emu.BT Require Import Types Server ConcProofs.
+From Emu.BT Require AdminProofs.
 
 Theorem C20_gcs_error_leaves_objects : forall s r,
   let '(s', rsp) := handle s r in
@@ -17,3 +18,30 @@ Theorem C20_bt_error_leaves_server : forall s c,
   br_code (snd (step s c)) <> cOK -> fst (step s c) = s.
 Proof. exact failure_atomic. Qed.
 Print Assumptions C20_bt_error_leaves_server.
+
+(* CreateTable with an invalid table id or parent (ids such as "t2/../t1", "./t1", ".." used to
+   resolve to another table's files): InvalidArgument, the server is unchanged *)
+Theorem C20_create_rejects_invalid_names : forall s parent tid fams now coins,
+  valid_tid tid = false \/ valid_parent parent = false ->
+  step s (mkCall (BCreateTable parent tid fams) now coins) = (s, fail cInvalidArgument).
+Proof. exact AdminProofs.create_rejects_invalid_names. Qed.
+Print Assumptions C20_create_rejects_invalid_names.
+
+(* every table name registered in any reachable server has the form
+   projects/<project>/instances/<instance>/tables/<table id> *)
+Theorem C20_reachable_table_names_valid : forall cs n,
+  In n (map fst (fst (run [] cs))) -> AdminProofs.valid_table_name n.
+Proof. exact AdminProofs.reachable_table_names_valid. Qed.
+Print Assumptions C20_reachable_table_names_valid.
+
+Example C20_create_rejected :
+  let s := fst (run [] [mkCall (BCreateTable AdminProofs.ex_parent AdminProofs.ex_tid []) 0%Z []]) in
+  s <> []
+  /\ step s (mkCall (BCreateTable AdminProofs.ex_parent
+                       (AdminProofs.ex_tid2 ++ s_slash1 ++ s_dotdot ++ s_slash1 ++ AdminProofs.ex_tid) []) 0%Z [])
+     = (s, fail cInvalidArgument)
+  /\ step s (mkCall (BCreateTable AdminProofs.ex_parent (s_dot ++ s_slash1 ++ AdminProofs.ex_tid) []) 0%Z []) = (s, fail cInvalidArgument)
+  /\ step s (mkCall (BCreateTable (AdminProofs.table_name AdminProofs.ex_parent AdminProofs.ex_tid) AdminProofs.ex_tid2 []) 0%Z [])
+     = (s, fail cInvalidArgument)
+  /\ br_code (snd (step s (mkCall (BCreateTable AdminProofs.ex_parent AdminProofs.ex_tid2 []) 0%Z []))) = cOK.
+Proof. exact AdminProofs.ex_create_rejected. Qed.
